@@ -19,23 +19,72 @@ DENSITIES = [0.25, 0.4, 0.55, 0.7, 0.85, 1.0]
 
 # ----------------------------------------------------------------------------------------------- expansions
 
-def accessor_of(graph):
+LAYOUTS = ["C", "C", "C", "F", "strided", "offset"]
+
+
+_POOL = {}
+
+
+def pooled(array, tag=""):
+    """Hand out ONE long-lived array object per (shape, dtype, layout) and write each new content into it in place.
+
+    Consecutive cases therefore pass the same numpy objects with different contents - exactly what a caller does who
+    edits a graph, mask or table in place between calls (remove_nasty_arc works that way).  Library code that
+    memoises on the identity of an argument then returns stale answers, which the ordinary oracles report.
+    Set VERIF_NO_POOL=1 to get fresh arrays (debugging only)."""
+    import os
+    import numpy
+    if os.environ.get("VERIF_NO_POOL"):
+        return array
+    key = (tag, array.shape, array.dtype.str, array.strides)
+    buffer = _POOL.get(key)
+    if buffer is None:
+        _POOL[key] = array
+        return array
+    numpy.copyto(buffer, array)
+    return buffer
+
+
+def relayout(array, layout):
+    """Same values, different memory layout: C-contiguous, Fortran-ordered, a strided view, or a view at an offset
+    inside a larger buffer (all are ordinary numpy arrays a caller may pass)."""
+    import numpy
+    if layout in (None, "C"):
+        return numpy.ascontiguousarray(array)
+    if layout == "F":
+        return numpy.asfortranarray(array)
+    if layout == "strided":
+        big = numpy.full((array.shape[0], array.shape[1] * 2), -7, dtype=array.dtype)
+        big[:, ::2] = array
+        return big[:, ::2]
+    big = numpy.full((array.shape[0] + 3, array.shape[1] + 1), -7, dtype=array.dtype)
+    big[2:-1, 1:] = array
+    return big[2:-1, 1:]
+
+
+def accessor_of(graph, layout=None):
     import numpy
     k, rows = graph["k"], graph["rows"]
-    table = o.succ_table(k)
-    acc = -numpy.ones((4 ** k, 4), dtype=int)
-    for v, r in enumerate(rows):
-        for j in range(4):
-            if (r >> j) & 1:
-                acc[v, j] = table[v][j]
-    return acc
+    n = 4 ** k
+    if n >= 4096:
+        succ = (numpy.arange(n).reshape(-1, 1) * 4 + numpy.arange(4)) % n  # same arithmetic as oracles.succ (k >= 6)
+        bits = (numpy.array(rows).reshape(-1, 1) >> numpy.arange(4)) & 1
+        acc = numpy.where(bits == 1, succ, -1).astype(int)
+    else:
+        table = o.succ_table(k)
+        acc = -numpy.ones((n, 4), dtype=int)
+        for v, r in enumerate(rows):
+            for j in range(4):
+                if (r >> j) & 1:
+                    acc[v, j] = table[v][j]
+    return pooled(relayout(acc, layout if layout is not None else graph.get("layout")), "accessor")
 
 
 def table_of(perm_indices):
     import numpy
     if perm_indices is None:
         return None
-    return numpy.array([PERMS[i] for i in perm_indices], dtype=int)
+    return pooled(numpy.array([PERMS[i] for i in perm_indices], dtype=int), "table")
 
 
 def table_rows(perm_indices):
@@ -44,7 +93,7 @@ def table_rows(perm_indices):
 
 def bits_of(text):
     import numpy
-    return numpy.array([int(c) for c in text], dtype=int)
+    return pooled(numpy.array([int(c) for c in text], dtype=int), "bits")
 
 
 def rows_of_accessor(acc, k):
@@ -257,7 +306,7 @@ def edits(draw, s, count, alphabet="ACGT"):
     return out
 
 
-FOREIGN = "acgtNn-U0 1é中"
+FOREIGN = "acgtNn-U0 1é中\n\t\r\x00"
 
 
 @st.composite
@@ -410,7 +459,7 @@ def library_graph(spec):
     import numpy
     from pbt.core import Raised, import_dsw, lib_call
     dsw = import_dsw()
-    mask = numpy.array([int(c) for c in spec["mask"]], dtype=int)
+    mask = pooled(numpy.array([int(c) for c in spec["mask"]], dtype=int), "mask")
     result = lib_call(dsw.connect_coding_graph, observed_length=spec["k"], vertices=mask, threshold=spec["t"])
     if isinstance(result, Raised):
         return None, "generation_raised:" + result.name
@@ -419,3 +468,16 @@ def library_graph(spec):
     except ValueError:
         return None, "generation_malformed"
     return rows, None
+
+
+def relax_until_satisfiable(cfg):
+    """Construction aid: drop rules of a local-filter configuration until at least two k-mers pass (by the
+    independent predicate), so that generated filters rarely end in 'no vertex' (never rejects a draw)."""
+    k = cfg["k"]
+    cfg = dict(cfg)
+    for key in ("gc", "motifs", "run", None):
+        passing = sum(1 for v in range(4 ** k) if o.ref_local_filter(cfg, o.kmer(v, k)) is not False)
+        if passing >= 2 or key is None:
+            break
+        cfg[key] = None
+    return cfg
